@@ -461,7 +461,11 @@ def load_known(pid: str):
     if d.is_dir():
         for f in sorted(d.glob("*.json")):
             out += json.loads(f.read_text()).get("findings", [])
-    return [f for f in out if f.get("property") == pid]
+    # known_findings.d is worker scratch (not committed; vp/merge_findings.py folds it into the single file)
+    uniq = {}
+    for f in out:
+        uniq[(f.get("property"), f.get("signature"))] = f
+    return [f for f in uniq.values() if f.get("property") == pid]
 
 
 # --------------------------------------------------------------------------
